@@ -106,7 +106,7 @@ func (g *gen) giveBalances(a string) {
 		}
 		b := g.amount()
 		if g.r.Chance(1, 2) {
-			b = big.NewInt(int64(g.r.Intn(300)))
+			b = big.NewInt(int64(g.r.Intn(1000)))
 		}
 		if g.r.Intn(100) < g.cfg.NegBalPct {
 			b = new(big.Int).Neg(b)
